@@ -367,7 +367,10 @@ def run_remote_object(case):
         arg = {'none': None, 'known-name': 'org.verif.Calc', 'both-names': ['org.verif.Calc', 'org.verif.Extra'],
                'explicit': [mine], 'unknown-name': ['org.verif.Extra']}[case['how']]
         res = []
-        h.getRemoteObject('org.verif.Peer', '/calc', arg, replaceKnownInterfaces=case['replace']).addBoth(res.append)
+        if case['replace'] or case['how'] in ('none', 'explicit'):
+            h.getRemoteObject('org.verif.Peer', '/calc', arg, replaceKnownInterfaces=case['replace']).addBoth(res.append)
+        else:
+            h.getRemoteObject('org.verif.Peer', '/calc', arg).addBoth(res.append)      # reuse is the documented default
         if len(res) != 1 or not hasattr(res[0], 'interfaces'):
             return [Disc('remote.getRemoteObject-failed:%s' % case['how'], repr(res))]
         byname = {i.name: i for i in res[0].interfaces}
